@@ -104,3 +104,87 @@ def run_mutants(prop, mod, only=None):
     except OSError:
         pass
     return out
+
+
+def try_patch(patch, props):
+    """apply a unified diff to a private scratch copy of /repo (never to /repo itself), extract facts and run the
+    quick rules of `props` on it; prints what fires.  Used to measure seeded changes; writes no evidence."""
+    import importlib
+    import subprocess
+    from .engine import Ctx, load_known
+    repo = build.REPO
+    copy = make_copy(repo)
+    facts_dir = os.path.join(SCRATCH_PARENT, "facts")
+    out = {}
+    try:
+        r = subprocess.run(["git", "apply", "--include=src/*", "--include=Cargo.toml", os.path.abspath(patch)], cwd=copy, capture_output=True, text=True)
+        if r.returncode != 0:
+            print("patch does not apply: %s" % r.stderr.strip()[-300:])
+            return None
+        try:
+            build.facts_for_copy(copy, facts_dir)
+        except build.BuildFailed as e:
+            print("patched tree does not compile: %s" % str(e)[-300:])
+            return None
+        F = Facts(facts_dir)
+        for prop in props:
+            mod = importlib.import_module("sa.rules.%s" % prop)
+            ctx = Ctx(F, prop, "quick")
+            mod.run(ctx)
+            known = {k["key"] for k in load_known() if k.get("property") == prop and k.get("status") == "known"}
+            v = [i for i in ctx.instances if i.status in ("violation", "anchor-lost") and i.key not in known]
+            out[prop] = [i.key for i in v]
+            print("%s: %d violation(s)" % (prop, len(v)))
+            for i in v[:12]:
+                print("   %s  [%s]  %s" % (i.key, i.site, (i.detail or "")[:200]))
+    finally:
+        shutil.rmtree(copy, ignore_errors=True)
+        shutil.rmtree(facts_dir, ignore_errors=True)
+        try:
+            os.rmdir(SCRATCH_PARENT)
+        except OSError:
+            pass
+    return out
+
+
+def patched_facts(patch, out_dir):
+    """facts of a private scratch copy of /repo with `patch` applied, kept in out_dir (development aid for measuring
+    seeded changes; nothing registered in MANIFEST depends on it)"""
+    import subprocess
+    copy = make_copy(build.REPO)
+    try:
+        r = subprocess.run(["git", "apply", "--include=src/*", "--include=Cargo.toml", os.path.abspath(patch)], cwd=copy, capture_output=True, text=True)
+        if r.returncode != 0:
+            print("patch does not apply: %s" % r.stderr.strip()[-300:])
+            return False
+        try:
+            build.facts_for_copy(copy, out_dir)
+        except build.BuildFailed as e:
+            print("patched tree does not compile: %s" % str(e)[-300:])
+            return False
+        return True
+    finally:
+        shutil.rmtree(copy, ignore_errors=True)
+        try:
+            os.rmdir(SCRATCH_PARENT)
+        except OSError:
+            pass
+
+
+def run_on_facts(facts_dir, props, verbose=True):
+    import importlib
+    from .engine import Ctx, load_known
+    F = Facts(facts_dir)
+    out = {}
+    for prop in props:
+        mod = importlib.import_module("sa.rules.%s" % prop)
+        ctx = Ctx(F, prop, "quick")
+        mod.run(ctx)
+        known = {k["key"] for k in load_known() if k.get("property") == prop and k.get("status") == "known"}
+        v = [i for i in ctx.instances if i.status in ("violation", "anchor-lost") and i.key not in known]
+        out[prop] = [i.key for i in v]
+        if verbose:
+            print("%s: %d violation(s)" % (prop, len(v)))
+            for i in v[:12]:
+                print("   %s  [%s]  %s" % (i.key, i.site, (i.detail or "")[:220]))
+    return out
